@@ -254,6 +254,10 @@ def tok_float(x):
     return '%d/%d' % (p, q)
 
 
+import functools
+
+
+@functools.lru_cache(maxsize=200000)
 def tok_str(s):
     return 's' + '.'.join(str(ord(c)) for c in s)
 
@@ -506,7 +510,7 @@ def sim_same(s, q, ignore_filename=False):
 
 
 # ------------------------------------------------------------ constructors
-def build_params(ps):
+def build_params(ps, skip_post_ops=False):
     """ps = {'params': [[name, vspec]..], 'unpack': [names], 'child': None | index,
              'grandchild': optional [name, index]}"""
     P = _impl()[0]
@@ -526,7 +530,56 @@ def build_params(ps):
             p.set_unpack_parameter(n)
             lst = p.get_unpacked_params_list()
             p = lst[j % len(lst)]
+    if not skip_post_ops:
+        for op in ps.get('post_ops', []):
+            apply_post_op(p, op)
     return p
+
+
+def apply_post_op(p, op):
+    """one mutator call after unpacking: op = [level, kind, name, vspec|None];
+    level 0 is the object itself, 1 its _original_sim_params, ..."""
+    level, kind, name = op[0], op[1], op[2]
+    target = params_chain(p)[level]
+    if kind == 'set':
+        target[name] = build(op[3])
+    elif kind == 'add':
+        target.add(name, build(op[3]))
+    elif kind == 'remove':
+        target.remove(name)
+    elif kind == 'mark':
+        target.set_unpack_parameter(name)
+    elif kind == 'unmark':
+        target.set_unpack_parameter(name, False)
+    else:
+        raise ValueError(kind)
+
+
+def post_ops_tokens(ops):
+    items = []
+    for op in ops:
+        kind = 'set' if op[1] == 'add' else op[1]
+        if kind == 'set':
+            items.append('L4 i%d %s %s %s' % (op[0], tok_str(kind), tok_str(op[2]), tok(build(op[3]), strict=True)))
+        else:
+            items.append('L3 i%d %s %s' % (op[0], tok_str(kind), tok_str(op[2])))
+    return ' '.join(['L%d' % len(items)] + items)
+
+
+def child_differs_from_parent(p):
+    """the object is an unpacked variation whose value of some parameter that is
+    fixed in its original differs from the original's value (or exists on one side only)"""
+    o = p._original_sim_params
+    if o is None:
+        return False
+    for n in set(p.parameters) | set(o.parameters):
+        if n in o._unpacked_parameters_set:
+            continue
+        if (n in p.parameters) != (n in o.parameters):
+            return True
+        if deep_same(p.parameters[n], o.parameters[n]) is not None:
+            return True
+    return False
 
 
 def build_result(rs):
@@ -749,6 +802,20 @@ def _params_failure(ps):
     q4 = pickle.loads(pickle.dumps(p, protocol=2))
     if params_state(q4) != params_state(p) or (eq_usable(p) and not (q4 == p)):
         return 'pickle round trip changed the object'
+    # pickle and JSON agree, and a second save derives the same file name
+    d = params_same(q4, q, 'pickle-vs-json')
+    if d:
+        return d
+    SR = _impl()[2]
+    fields = [n for n, v in p.parameters.items() if kind_of(v) in ('int', 'float', 'str', 'bool', 'none') and n.isidentifier()]
+    tpl = 'res' + ''.join('_{%s}' % n for n in fields) + '.json'
+    names = []
+    for obj in (p, q, q4):
+        w = SR()
+        w.set_parameters(obj)
+        names.append(w.get_filename_with_replaced_params(tpl))
+    if len(set(names)) != 1:
+        return 'file name derived from the loaded parameters differs: %r' % (names,)
     if any(has_layout(v) for _, v in ps['params']):
         t = build_params(strip_ps(ps))
         if params_state(t) != params_state(p):
@@ -773,6 +840,14 @@ def params_class(ps):
     for n, v in ps['params']:
         if n in RESERVED:
             return 'params:reserved-key'
+    if ps.get('post_ops'):
+        try:
+            ok_without = _params_failure(dict(ps, post_ops=[])) is None
+        except Exception:
+            ok_without = False
+        if ok_without:
+            lv = sorted({('child' if op[0] == 0 else 'original') for op in ps['post_ops']})
+            return 'params:changed-after-unpacking:' + '+'.join(lv)
     base = dict(ps)
     for n, v in ps['params']:
         one = {'params': [[n, v]], 'unpack': [n] if n in ps.get('unpack', []) else [], 'child': ps.get('child'),
@@ -871,10 +946,18 @@ def o_result(case):
 
 
 def _tmpdir():
+    """folder for the files written by save_to_file; a memory file system when
+    there is one (the atomic writer fsyncs every file)"""
     import tempfile
     d = os.environ.get('VERIF_SCRATCH') or tempfile.gettempdir()
+    if os.path.isdir('/dev/shm') and os.access('/dev/shm', os.W_OK):
+        d = '/dev/shm'
     d = os.path.join(d, 'c17_files_%d' % os.getpid())
-    os.makedirs(d, exist_ok=True)
+    if not os.path.isdir(d):
+        os.makedirs(d, exist_ok=True)
+        import atexit
+        import shutil
+        atexit.register(shutil.rmtree, d, True)
     return d
 
 
@@ -925,6 +1008,9 @@ def _sim_failure(ss):
                 os.remove(actual)
             except OSError:
                 pass
+            if q.get_filename_with_replaced_params(q.original_filename) != actual:
+                return 'file%s: a second save of the loaded object would go to %r, not %r' % (
+                    ext, q.get_filename_with_replaced_params(q.original_filename), actual)
             if s.original_filename != name + ('.pickle' if ext == '' else ''):
                 return 'original_filename is %r' % (s.original_filename,)
             if usable and not (s == q):
@@ -1611,6 +1697,45 @@ def gen_params(rng, allow_child=True):
             cands = [n for n, v in params if n not in unpack and v[0] in ('list', 'str', 'array', 'set') and len_of(v) > 0]
             if cands and rng.chance(0.3):
                 ps['grandchild'] = [rng.choice(cands), rng.randint(0, 20)]
+    if ps['child'] is not None and rng.chance(0.65):
+        add_post_ops(rng, ps)
+    return ps
+
+
+def add_post_ops(rng, ps):
+    """mutator calls applied after unpacking, to the child and to its originals"""
+    p = build_params(ps, skip_post_ops=True)
+    ops = []
+    for _ in range(rng.choice([1, 1, 2, 3, 4])):
+        chain = params_chain(p)
+        level = rng.below(len(chain)) if rng.chance(0.45) else 0
+        target = chain[level]
+        names = list(target.parameters)
+        c = rng.below(10)
+        if c <= 3 and names:                                      # overwrite an existing parameter
+            fixed = [n for n in names if n not in target._unpacked_parameters_set] or names
+            op = [level, rng.choice(['set', 'add']), rng.choice(fixed), gen_value(rng, 2)]
+        elif c <= 5:                                              # a parameter only this object has
+            op = [level, rng.choice(['set', 'add']), gen_name(rng, set(names)), gen_value(rng, 2)]
+        elif c <= 7 and names:
+            op = [level, 'remove', rng.choice(names), None]
+        else:
+            it = [n for n in names if isinstance(target.parameters[n], (list, set, str, np.ndarray))]
+            marked = [n for n in it if n in target._unpacked_parameters_set]
+            if marked and rng.chance(0.5):
+                op = [level, 'unmark', rng.choice(marked), None]
+            elif it:
+                op = [level, 'mark', rng.choice(it), None]
+            else:
+                continue
+        if op[1] in ('set', 'add') and 'npfloat:longdouble' in spec_features(op[3]):
+            continue
+        try:
+            apply_post_op(p, op)
+        except Exception:
+            continue
+        ops.append(op)
+    ps['post_ops'] = ops
     return ps
 
 
@@ -1867,12 +1992,57 @@ def corr_params(ctx, b, ps, variants=True):
           safe(lambda: 'ok ' + params_state(P.from_json(p.to_json()))), prefix='wf=1', nontrivial=nontriv,
           key=('params', key))
     ctx.branch('params:depth=%d' % depth)
+    if variants:
+        corr_params_ops(ctx, b, ps)
+    if child_differs_from_parent(p):
+        ctx.branch('params:child-own-values-differ-from-original')
     if any(manifesting(x) for x in iter_arrays(ps)):
         ctx.branch('params:array-non-C-memory-order')
     if ps['unpack']:
         ctx.branch('params:unpacked-marks')
     if ps.get('child') is not None:
         ctx.branch('params:child')
+
+
+def corr_params_ops(ctx, b, ps):
+    """the model applies the mutator calls itself (`applyOps`) to the state before
+    them and predicts the JSON tree and the loaded object of the result"""
+    P = _impl()[0]
+    ops = ps.get('post_ops') or []
+    if not ops:
+        return
+    base = build_params(ps, skip_post_ops=True)
+    try:
+        line = 'paramsops %d L2 %s %s' % (len(params_chain(base)) + 1, params_in(base), post_ops_tokens(ops))
+    except NotSendable:
+        ctx.branch('not-sendable')
+        return
+
+    def run():
+        for op in ops:
+            try:
+                apply_post_op(base, op)
+            except Exception as e:
+                return 'ops ' + exc_name(e)
+        return 'wf=1 tree=%s loaded=ok %s' % (text_tree(base.to_json()), params_state(P.from_json(base.to_json())))
+    impl = safe(run)
+    b.add('mutators after unpacking; from_json∘to_json', ps, line, impl, key=('pops', json.dumps(ps, sort_keys=True)))
+    for op in ops:
+        ctx.branch('params:post-op:%s:%s' % ('set' if op[1] == 'add' else op[1], 'child' if op[0] == 0 else 'original'))
+    if not impl.startswith('ops ') and child_differs_from_parent(base):
+        ctx.branch('params:child-own-values-differ-from-original')
+
+
+def corr_params_bad_ops(ctx, b, rng):
+    """mutator calls that must be rejected (missing name, not iterable, not marked)"""
+    ps = {'params': [['a', ['list', [['int', 1], ['int', 2]]]], ['b', ['int', 3]], ['c', ['str', 'xy']]],
+          'unpack': ['a'], 'child': rng.below(2), 'via_add': False}
+    level = rng.below(2)
+    bad = rng.choice([[level, 'remove', 'zz', None], [level, 'mark', 'b', None], [level, 'mark', 'zz', None],
+                      [level, 'unmark', 'c', None], [level, 'unmark', 'b', None], [level, 'unmark', 'zz', None]])
+    good = rng.choice([[], [[0, 'set', 'b', ['int', 9]]], [[1, 'remove', 'c', None]]])
+    corr_params_ops(ctx, b, dict(ps, post_ops=good + [bad]))
+    ctx.branch('params:post-op:rejected')
 
 
 def corr_result(ctx, b, rs):
@@ -2106,6 +2276,16 @@ def corpus_params():
         {'params': [['a', ['list', [['npint', 'int8', 1], ['npfloat', 'float16', fhex(0.5)]]]], ['b', ['list', [['int', 1], ['int', 2]]]]],
          'unpack': ['a'], 'child': 0, 'grandchild': ['b', 1]},
         {'params': [['rep_max', ['int', 5]], ['x', ['npbool', True]]], 'unpack': [], 'child': None},
+        # children changed after unpacking: every object of the chain keeps its own values
+        {'params': [['snr', ['list', [['int', 0], ['int', 5]]]], ['M', ['int', 4]]], 'unpack': ['snr'], 'child': 1,
+         'via_add': False, 'post_ops': [[0, 'set', 'M', ['int', 16]]]},
+        {'params': [['snr', ['list', [['int', 0], ['int', 5]]]], ['M', ['int', 4]], ['H', ['array', 'float64', [2], [fhex(1.0), fhex(2.0)]]]],
+         'unpack': ['snr'], 'child': 0, 'via_add': False,
+         'post_ops': [[0, 'add', 'taps', ['array', 'int16', [2, 2], [1, 2, 3, 4], 'F']], [1, 'set', 'M', ['int', 64]],
+                      [0, 'remove', 'H', None], [1, 'add', 'late', ['str', '']], [0, 'set', 'M', ['int', 0]]]},
+        {'params': [['snr', ['list', [['int', 0], ['int', 5]]]], ['w', ['str', 'ab']], ['z', ['float', fhex(0.5)]]],
+         'unpack': ['snr'], 'child': 1, 'via_add': False,
+         'post_ops': [[0, 'mark', 'w', None], [1, 'mark', 'w', None], [1, 'unmark', 'snr', None], [1, 'remove', 'z', None]]},
         # memory layouts: the value of an array is its logical content
         {'params': [['H', ['array', 'float64', [2, 3], [fhex(x) for x in (1, 2, 3, 4, 5, 6)], 'T']]], 'unpack': [],
          'child': None, 'via_add': True},
@@ -2231,35 +2411,68 @@ def sizes(ctx):
     return dict(values=125000, params=50000, results=65000, sims=12000, fnames=25000, orc=23000)
 
 
+def guarded(ctx, call, wrap, fn, b, spec):
+    """run one correspondence case; an exception raised by the library while the
+    case is built or observed is a failing input of the property (reported with
+    the oracle `call`, which replays it), never a harness error"""
+    try:
+        with time_limit(30.0):
+            fn(ctx, b, spec)
+    except (core.Infra, NotSendable):
+        raise
+    except Exception as e:
+        ctx.branch('library-exception:' + call)
+        ctx.fail(call, 'exception:' + type(e).__name__, wrap(spec), '%s: %s' % (type(e).__name__, str(e)[:300]))
+
+
+def gen_guarded(ctx, call, gen, rng):
+    """generators build real objects too (children, templates)"""
+    try:
+        with time_limit(30.0):
+            return gen(rng)
+    except Exception as e:
+        ctx.branch('library-exception:' + call)
+        ctx.fail(call, 'exception-while-generating:' + type(e).__name__, {'note': 'generator', 'error': repr(e)[:300]},
+                 '%s: %s' % (type(e).__name__, str(e)[:300]))
+        return None
+
+
 def correspondence(ctx):
     n = sizes(ctx)
     rng = ctx.rng.fork('corr')
     b = Batch(ctx)
+    ident = lambda x: x
     for spec in CORPUS_VALUES:
-        corr_value(ctx, b, spec)
+        guarded(ctx, 'json.roundtrip', lambda v: {'v': v}, corr_value, b, spec)
     for _ in range(n['values']):
-        corr_value(ctx, b, gen_value(rng, 3))
+        guarded(ctx, 'json.roundtrip', lambda v: {'v': v}, corr_value, b, gen_value(rng, 3))
         if len(b.lines) > 4000:
             b.flush()
     b.flush()
     for ps in corpus_params():
-        corr_params(ctx, b, ps)
+        guarded(ctx, 'SimulationParameters.roundtrip', ident, corr_params, b, ps)
     for _ in range(n['params']):
-        corr_params(ctx, b, gen_params(rng))
+        ps = gen_guarded(ctx, 'SimulationParameters.roundtrip', gen_params, rng)
+        if ps is not None:
+            guarded(ctx, 'SimulationParameters.roundtrip', ident, corr_params, b, ps)
         if len(b.lines) > 3000:
             b.flush()
+    for _ in range(max(20, n['params'] // 40)):
+        corr_params_bad_ops(ctx, b, rng)
     b.flush()
     for rs in corpus_results():
-        corr_result(ctx, b, rs)
+        guarded(ctx, 'Result.roundtrip', ident, corr_result, b, rs)
     for _ in range(n['results']):
-        corr_result(ctx, b, gen_result(rng))
+        guarded(ctx, 'Result.roundtrip', ident, corr_result, b, gen_result(rng))
         if len(b.lines) > 3000:
             b.flush()
     for _ in range(max(20, n['results'] // 20)):
         corr_choice_errors(ctx, b, rng)
     b.flush()
     for _ in range(n['sims']):
-        corr_sim(ctx, b, gen_sim(rng))
+        ss = gen_guarded(ctx, 'SimulationResults.roundtrip', gen_sim, rng)
+        if ss is not None:
+            guarded(ctx, 'SimulationResults.roundtrip', ident, corr_sim, b, ss)
         if len(b.lines) > 1000:
             b.flush()
     b.flush()
@@ -2352,8 +2565,8 @@ def oracle_pass(ctx, scale=1.0):
     for ps in corpus_params():
         run_params_oracles(ctx, ps)
     for _ in range(k):
-        ps = gen_params(rng)
-        if 'npfloat:longdouble' in _params_features(ps):
+        ps = gen_guarded(ctx, 'SimulationParameters.roundtrip', gen_params, rng)
+        if ps is None or 'npfloat:longdouble' in _params_features(ps):
             continue
         run_params_oracles(ctx, ps, nontrivial=len(ps['params']) > 0)
     run_oracle(ctx, 'SimulationParameters.roundtrip.reserved-name', {'name': '_is_set', 'v': ['int', 3]})
@@ -2364,8 +2577,8 @@ def oracle_pass(ctx, scale=1.0):
         rs = gen_result(rng)
         run_oracle(ctx, 'Result.roundtrip', rs, nontrivial=len(rs['history']) > 0)
     for _ in range(max(10, k // 4)):
-        ss = gen_sim(rng)
-        if 'npfloat:longdouble' in _params_features(ss['params']):
+        ss = gen_guarded(ctx, 'SimulationResults.roundtrip', gen_sim, rng)
+        if ss is None or 'npfloat:longdouble' in _params_features(ss['params']):
             continue
         run_oracle(ctx, 'SimulationResults.roundtrip', ss)
     # file names
@@ -2395,8 +2608,8 @@ def oracle_pass(ctx, scale=1.0):
         run_oracle(ctx, 'SimulationResults.robustness', ss)
         ctx.branch('R3R4R7:robustness-scenarios')
     for _ in range(max(30, k // 8)):
-        ss = gen_sim(rng)
-        if 'npfloat:longdouble' in _params_features(ss['params']):
+        ss = gen_guarded(ctx, 'SimulationResults.robustness', gen_sim, rng)
+        if ss is None or 'npfloat:longdouble' in _params_features(ss['params']):
             continue
         run_oracle(ctx, 'SimulationResults.robustness', ss)
         ctx.branch('R3R4R7:robustness-scenarios')
@@ -2414,7 +2627,10 @@ def check(ctx):
                 'files with parameter templates. non-trivial = distinct spec that is a container / numpy scalar / '
                 'has >=1 parameter / >=1 update')
     core.prove(ctx, MODULE, generated=[], drivers=[DRIVER], scratch=ctx.scratch)
-    ctx.required_branches = ['R5:boundary', 'R5:boundary-sim', 'R6:scale', 'R3R4R7:robustness-scenarios',
+    ctx.required_branches = ['params:child-own-values-differ-from-original', 'params:post-op:set:child',
+                             'params:post-op:set:original', 'params:post-op:remove:child',
+                             'params:post-op:remove:original', 'params:post-op:mark:child',
+                             'params:post-op:rejected', 'R5:boundary', 'R5:boundary-sim', 'R6:scale', 'R3R4R7:robustness-scenarios',
                              'R4:rejected-save-state-compared', 'feature:array:non-C-memory-order', 'feature:array:layout=F', 'feature:array:layout=T',
                              'feature:array:layout=strided', 'feature:array:layout=reversed',
                              'feature:array:layout=broadcast', 'params:array-non-C-memory-order',
